@@ -108,7 +108,13 @@ def schedules(ctx):
                 if c == 'WeeklyRebalance':
                     wdv = p0.heap.get(A('self', 'weekday'))
                     up = ('call', ('meth', 'upper'), (V('weekday'),), ())
-                    ctx.require(wdv == up, 'C13.S2', 'the weekday used is the validated (upper-cased) one', fn.site(), fmt(wdv) if wdv else None, key='C13.S2|validated')
+                    unread_wd = wdv is not None and wdv != up and any((s_[0] == 'sub' and s_[1][0] == 'var' and s_[1][1].startswith('class:')) or (s_[0] == 'call' and s_[1][0] == 'fn') or s_[0] == 'havoc'
+                                                                      for s_ in T.subterms(wdv))
+                    if unread_wd:
+                        # the name goes through a lookup this rule does not evaluate (an enumeration member found by name, and a field of it handed back)
+                        ctx.undecided('C13.S2', 'the weekday used is the validated (upper-cased) one', fn.site(), fmt(wdv)[:120])
+                    else:
+                        ctx.require(wdv == up, 'C13.S2', 'the weekday used is the validated (upper-cased) one', fn.site(), fmt(wdv) if wdv else None, key='C13.S2|validated')
                     fr = k.get('freq') or ZERO
                     fr_ok = fold_fmt(fr) == ('fmt', ('str', 'W-%s'), ('tuple', (up,)))
                     # the weekday this path was taken for, when the code dispatched on it (a table of frequencies / offsets per weekday)
@@ -123,6 +129,14 @@ def schedules(ctx):
                         # a literal frequency string chosen per weekday: right iff it names that weekday
                         fr_ok = fr[1] == 'W-' + known[0]
                     ok = dates[0] == 'call' and dates[1] == ('ext', 'pandas.date_range') and a0 == st_ and a1 == en_ and fr_ok and not (set(k) - {'start', 'end', 'freq'})
+                    stepped = fr[0] == 'str' and fr[1].upper() in ('7D', 'W', '1W', '168H') or (fr[0] == 'call' and fr[1][0] == 'ext' and fr[1][1].endswith('Timedelta'))
+                    if not ok and dates[0] == 'call' and dates[1] == ('ext', 'pandas.date_range') and a1 == en_ and a0 is not None and a0 != st_ \
+                            and any(s_ == st_ for s_ in T.subterms(a0)) and stepped:
+                        # stepping a week at a time from a first date computed out of the start (the first such weekday on or after it): the calendar arithmetic
+                        # that finds that first date is not evaluated here
+                        ctx.undecided('C13.S1', "weekly dates = pd.date_range(start, end, freq='W-<weekday>') over the unmodified range", fn.site(),
+                                      'weekly steps from a computed first date: %s' % fmt(a0)[:140])
+                        continue
                     ctx.require(ok, 'C13.S1', "weekly dates = pd.date_range(start, end, freq='W-<weekday>') over the unmodified range", fn.site(), fmt(dates)[:200], key='C13.S1|weekly|range')
                 elif c == 'DailyRebalance':
                     ok, why = c12.is_business_daily_range(dates, st_, en_, normalized=True)
